@@ -77,6 +77,31 @@ def alphabet(st, hist):
     return [ALIAS] + ALPHABET + reuse
 
 
+# part B: one verb deeper over a reduced alphabet, alias() only directly before the last verb
+# (a hidden column that is still needed across the subquery: order key, old reference)
+REDUCED = [
+    ["arrange", [["desc", ["nulls_last", Cn("x")]], Cn("k")]],
+    ["mutate", [["x", ["mul", Cn("x"), lit(2)]]]],
+    ["mutate", [["w", ["sum", Cn("x")]]]],
+    ["slice_head", 2, 0],
+    ["filter", [["gt", Cn("k"), lit(1)]]],
+    ["select", [Cn("k"), Cn("x")]],
+    ["summarize", [["a1", ["sum", Cn("x")]]]],
+    ["join", {"src": "R"}, "left", [["eq", Cn("k"), kR]]],
+    ["group_by", [Cn("g")]],
+]
+
+
+def alphabet_b(depth):
+    def f(st, hist):
+        n = size(hist)
+        out = list(REDUCED)
+        if n == depth - 1 and hist[-1][0] != "alias":
+            out = [ALIAS] + out
+        return out
+    return f
+
+
 def size(hist):
     # alias() and the final re-use probe of a hidden window column do not count
     return sum(1 for e in hist[1:] if e[0] != "alias" and not (e[0] == "mutate" and e[1][0][0] == "v3"))
@@ -149,7 +174,9 @@ def check_c08(step):
     return vs
 
 
-def make_explorer(world, depth=3):
+def make_explorer(world, depth=3, part="A"):
+    if part == "B":
+        return X.Explorer(world, alphabet=alphabet_b(depth), checks=[check_c08], depth=depth, oracle="both", names="list", size=size)
     return X.Explorer(world, alphabet=alphabet, checks=[check_c08], depth=depth, oracle="both", names="list", size=size)
 
 
@@ -162,18 +189,21 @@ def tasks(tier):
         if tier == "thorough" and wi > 0:
             continue
         out += [{"world": wi, "first": [i]} for i in range(N_FIRST)]
+    out += [{"world": 0, "first": [i], "part": "B"} for i in range(len(REDUCED))]
     return out
 
 
 def run_task(task, tier):
     w = worlds(tier)[task["world"]]
-    d = DEPTH[tier]
-    return base.run_history_task(lambda ww: make_explorer(ww, d), w, [["source", "T"]], task["first"], params={"depth": d})
+    part = task.get("part", "A")
+    d = DEPTH[tier] + (1 if part == "B" else 0)
+    return base.run_history_task(lambda ww: make_explorer(ww, d, part), w, [["source", "T"]], task["first"],
+                                 params={"depth": d, "part": part})
 
 
 def recheck(rec):
-    d = (rec.get("params") or {}).get("depth", 3)
-    return base.recheck_history(lambda ww: make_explorer(ww, d), rec)
+    p = rec.get("params") or {}
+    return base.recheck_history(lambda ww: make_explorer(ww, p.get("depth", 3), p.get("part", "A")), rec)
 
 
 def describe(tier):
@@ -182,6 +212,8 @@ def describe(tier):
         "alphabet_size": len(ALPHABET),
         "alias_masks": "alias() is an extra event allowed before every position (never twice in a row); the depth bound counts the other verbs, so all 2^D alias masks of every history are explored",
         "depth": DEPTH[tier],
+        "part_B": {"alphabet": [T.py_event(e) for e in REDUCED], "depth": DEPTH[tier] + 1,
+                   "alias": "only directly before the last verb"},
         "input_family": "2 adversarial tables (nulls, duplicates, ties)" if tier == "quick" else "1 adversarial table (5 rows; nulls, duplicates)",
         "backends": ["polars", "sqlite"],
         "invariants": ["polars never raises SubqueryError", "SQLite verb call returns or raises SubqueryError",
